@@ -184,6 +184,10 @@ class ProcessWorker(Worker):
             assert self._pid == self._child.pid
         else:
             assert self._child.sentinel in ready
+            # the child is gone without having told us who it was: there is no worker to speak of (and nothing to register)
+            self._child.join()
+            self._dead = True
+            raise RuntimeError('Child process of {!r} died (exit code: {}) before it could report back'.format(self._name, self._child.exitcode))
 
     # Children-side, main (working) thread
     def _run(self):
